@@ -39,7 +39,7 @@ class AssertionFailed(Exception):
     pass
 
 
-SAFE_BUILTINS = {'len', 'range', 'enumerate', 'zip', 'sum', 'tuple', 'list', 'isinstance', 'max', 'min', 'sorted', 'reversed', 'any', 'all', 'str', 'int', 'bool', 'abs', 'set', 'frozenset', 'dict'}
+SAFE_BUILTINS = {'float', 'len', 'range', 'enumerate', 'zip', 'sum', 'tuple', 'list', 'isinstance', 'max', 'min', 'sorted', 'reversed', 'any', 'all', 'str', 'int', 'bool', 'abs', 'set', 'frozenset', 'dict'}
 SAFE_METHODS = {'split', 'rsplit', 'partition', 'strip', 'append', 'extend', 'join', 'index', 'count', 'insert', 'pop', 'copy', 'items', 'keys', 'values', 'get', 'format', 'startswith', 'endswith'}
 
 
@@ -160,6 +160,12 @@ class MiniExec:
             out = []
             self._comp(e.generators, 0, dict(env), lambda en: out.append(self.ev(e.elt, en)))
             return set(out) if isinstance(e, ast.SetComp) else out
+        if isinstance(e, ast.DictComp):
+            out = {}
+            self._comp(e.generators, 0, dict(env), lambda en: out.__setitem__(self.ev(e.key, en), self.ev(e.value, en)))
+            return out
+        if isinstance(e, ast.Dict):
+            return {self.ev(k, env): self.ev(v, env) for k, v in zip(e.keys, e.values)}
         if isinstance(e, ast.JoinedStr):
             return ''.join(str(self.ev(v.value, env)) if isinstance(v, ast.FormattedValue) else v.value for v in e.values)
         raise Unsupported(f'expression {type(e).__name__}: {src(e)[:50]}')
@@ -240,4 +246,8 @@ class MiniExec:
             return a - b
         if isinstance(op, ast.Mult):
             return a * b
+        if isinstance(op, ast.FloorDiv):
+            return a // b
+        if isinstance(op, ast.Mod):
+            return a % b
         raise Unsupported('augmented operator')
